@@ -223,26 +223,38 @@ def _dnf(f, n, truth, depth):
 
 
 def _adjacent_init(f, blk, var):
+    """The expression a bool local received in the same block as the branch on it - by its declaration or by a plain
+    assignment - provided everything between that definition and the branch is free of side effects on it: only reads,
+    calls of const member functions and declarations of other locals may lie in between."""
     pos = None
+    init = None
     for i, e in enumerate(blk.elems):
         n = f.node(e)
         if n['k'] == 'DeclStmt' and any(v['id'] == var and 'init' in v for v in n.get('vars', [])):
             pos = i
             init = [v for v in n['vars'] if v['id'] == var][0]['init']
+        elif n['k'] == 'BinaryOperator' and n.get('op') == '=':
+            l = f.strip(f.ch(n)[0], casts=True)
+            if l is not None and l['k'] == 'DeclRefExpr' and l.get('id') == var:
+                pos = i
+                init = f.ch(n)[1]
     if pos is None:
         return None
     for e in blk.elems[pos + 1:]:
         n = f.node(e)
-        if n['k'] not in ('DeclRefExpr', 'ImplicitCastExpr', 'UnaryOperator', 'ParenExpr'):
-            return None
-        if n['k'] == 'DeclRefExpr' and n.get('id') != var:
-            return None
-    # assigned nowhere else
-    for n in f.all_nodes():
-        if n['k'] == 'BinaryOperator' and n.get('op') in ('=', '|=', '&=', '^='):
-            l = f.strip(f.ch(n)[0], casts=True)
-            if l is not None and l['k'] == 'DeclRefExpr' and l.get('id') == var:
+        k = n['k']
+        if k in ('DeclRefExpr', 'ImplicitCastExpr', 'UnaryOperator', 'ParenExpr', 'MemberExpr', 'CXXThisExpr',
+                 'IntegerLiteral', 'CXXBoolLiteralExpr', 'MaterializeTemporaryExpr', 'ExprWithCleanups'):
+            if k == 'UnaryOperator' and n.get('op') in ('++', '--'):
                 return None
+            continue
+        if k == 'DeclStmt' and not any(v['id'] == var for v in n.get('vars', [])):
+            continue
+        if k == 'CXXMemberCallExpr' and (n.get('callee') or '').rstrip().endswith('const'):
+            continue
+        if k == 'BinaryOperator' and n.get('op') in ('==', '!=', '<', '<=', '>', '>=', '&&', '||'):
+            continue
+        return None
     return f.node(init)
 
 
